@@ -2,9 +2,9 @@
    history of next / seek calls and the four iterator kinds.  The table is abstract: an
    index block and data blocks that satisfy wfb, with the separator conditions of the
    format; how such blocks arise from bytes is the business of ParseProofs. *)
-From Coq Require Import NArith ZArith List Lia ZifyBool ZifyN ZifyNat.
+From Coq Require Import NArith ZArith List Lia ZifyBool ZifyN ZifyNat Sorting.Sorted.
 From Mtbl Require Import gen.Consts model.Bytes model.Codec model.Order spec.Parse model.Reader
-  proofs.BytesLemmas proofs.OrderProofs proofs.BlockProofs.
+  proofs.BytesLemmas proofs.OrderProofs proofs.BlockProofs proofs.LookupProofs.
 Local Open Scope N_scope.
 Ltac splits := repeat match goal with |- _ /\ _ => split end.
 
@@ -543,4 +543,135 @@ Proof.
     rewrite <- Hk1, <- Hk2. rewrite (IH it' (Some (gfirst key)) Hok'); [reflexivity|].
     destruct Hpost as [Ha|[Ha Ht]]; [left; exact Ha|right; split; [exact Ha|rewrite Ht; reflexivity]].
 Qed.
+(* ---- draining an iterator; lookups as filters ------------------------------------------- *)
+Definition ent (e : pentry) : entry := (pe_key e, pe_val e).
+Definition Gents : list entry := map ent G.
+Definition spec_drain (kind : ikind) (k : bytes) (p : nat) : list entry :=
+  map ent (take_while (fun e => bound_ok kind k (pe_key e)) (skipn p G)).
+
+Lemma skipn_nth_cons : forall (l : list pentry) p, (p < length l)%nat -> skipn p l = nth p l dummy_pe :: skipn (S p) l.
+Proof.
+  induction l as [|x l IH]; intros p Hp; [cbn in Hp; lia|]. destruct p as [|p]; [reflexivity|].
+  cbn [skipn nth]. rewrite IH by (cbn in Hp; lia). reflexivity.
+Qed.
+
+Lemma drain_refines : forall fuel it, it_ok it ->
+  (match abs it with Some p => total - p < fuel | None => 0 < fuel end)%nat ->
+  drain decompress fuel r it =
+  Ok (match abs it with Some p => spec_drain (it_kind it) (it_k it) p | None => [] end).
+Proof.
+  induction fuel as [|fuel IH]; intros it Hok Hf; [destruct (abs it); lia|].
+  cbn [drain]. destruct (reader_next_refines it Hok) as (it' & e & -> & Hok' & Hs & Hk1 & Hk2).
+  destruct (abs it) as [p|] eqn:Ea; [|cbn in Hs; inversion Hs; reflexivity].
+  unfold spec_next in Hs. unfold spec_drain. destruct (Nat.ltb_spec p total) as [Hlt|Hge].
+  - rewrite (skipn_nth_cons G p Hlt). cbn [take_while].
+    destruct (bound_ok (it_kind it) (it_k it) (pe_key (nth p G dummy_pe))) eqn:Eb; inversion Hs as [[Ha He]]; [|reflexivity].
+    rewrite (IH it' Hok') by (rewrite Ha; lia). rewrite Ha, Hk1, Hk2. reflexivity.
+  - inversion Hs. rewrite skipn_all2 by exact Hge. reflexivity.
+Qed.
+
+Lemma G_sorted : StronglySorted klt G.
+Proof. apply sorted_of_index. intros p q H. apply (gkey_lt p q H). Qed.
+
+(* T01/T11 (reader level): iterating from the start returns every entry, in order *)
+Theorem reader_iter_all : forall fuel, (total < fuel)%nat ->
+  exists it, reader_iter decompress r = Ok (Some it) /\ drain decompress fuel r it = Ok Gents.
+Proof.
+  intros fuel Hf. destruct reader_iter_refines as (it & Hit & Hok & Ha & Hk). exists it. split; [exact Hit|].
+  rewrite (drain_refines fuel it Hok) by (rewrite Ha; lia). rewrite Ha, Hk. unfold spec_drain, Gents. cbn [skipn bound_ok].
+  f_equal. f_equal. induction G as [|x l IHl]; [reflexivity|]. cbn [take_while]. f_equal. exact IHl.
+Qed.
+
+(* T02 (reader level): the three lookups return exactly the matching entries *)
+Definition lookup_pred (kind : ikind) (k0 k1 : bytes) (key : bytes) : bool :=
+  match kind with
+  | KIter => true
+  | KGet => beq key k0
+  | KPrefix => is_prefix k0 key
+  | KRange => ble k0 key && ble key k1
+  end.
+
+Lemma filter_map_ent f : filter (fun e => f (fst e)) Gents = map ent (filter (fun e => f (pe_key e)) G).
+Proof.
+  unfold Gents. induction G as [|x l IHl]; [reflexivity|]. cbn [map filter]. cbn [ent fst].
+  destruct (f (pe_key x)); cbn [map]; rewrite IHl; reflexivity.
+Qed.
+
+Theorem reader_lookup_refines : forall kind k0 k1 fuel, kind <> KIter -> (total < fuel)%nat ->
+  let bound := match kind with KRange => k1 | _ => k0 end in
+  match reader_iter_init decompress r kind k0 bound with
+  | Ok (Some it) => drain decompress fuel r it = Ok (filter (fun e => lookup_pred kind k0 k1 (fst e)) Gents)
+  | Ok None => filter (fun e => lookup_pred kind k0 k1 (fst e)) Gents = []
+  | _ => False
+  end.
+Proof.
+  intros kind k0 k1 fuel Hkind Hf bound.
+  assert (Hfilter : filter (fun e => lookup_pred kind k0 k1 (fst e)) Gents = spec_drain kind bound (gfirst k0)).
+  { rewrite filter_map_ent. unfold spec_drain. f_equal. unfold gfirst.
+    rewrite <- (filter_is_take_while k0 (bound_ok kind bound)); [|destruct kind; subst bound; [congruence|apply get_down|apply prefix_down|apply range_down]|exact G_sorted].
+    apply filter_ext. intros e. unfold inside, lookup_pred. subst bound.
+    destruct kind; [congruence|apply get_shape|apply prefix_shape|apply range_shape]. }
+  pose proof (reader_iter_init_refines kind k0 bound) as Hinit.
+  destruct (reader_iter_init decompress r kind k0 bound) as [[it|]| | |]; try contradiction.
+  - destruct Hinit as (Hok & Ha & Hk1 & Hk2).
+    rewrite (drain_refines fuel it Hok) by (rewrite Ha; lia). rewrite Ha, Hk1, Hk2, Hfilter. reflexivity.
+  - rewrite Hfilter, Hinit. unfold spec_drain. rewrite skipn_all2 by (unfold total; lia). reflexivity.
+Qed.
 End Table.
+
+(* ---- the hypotheses as one record, and the theorems restated over it -------------------- *)
+Record table_ok (decompress : N -> bytes -> res bytes) (r : reader) (ib : ablock) (iridx : list nat)
+                (nb : nat) (B : nat -> ablock) (Rr : nat -> list nat) : Prop := {
+  t_index : r_index r = Some ib;                 (* the index block loaded by reader_open *)
+  t_index_wf : wfb ib iridx;
+  t_count : nentries ib = nb;                    (* one index entry per data block *)
+  t_load : forall i, (i < nb)%nat -> get_block decompress r (ioff ib i) = Ok (B i);
+  t_block_wf : forall i, (i < nb)%nat -> wfb (B i) (Rr i);
+  t_offsets_distinct : forall i j, (i < nb)%nat -> (j < nb)%nat -> ioff ib i = ioff ib j -> i = j;
+  t_sep_ge_last : forall i, (i < nb)%nat -> bcmp (key_at (B i) (nentries (B i) - 1)) (key_at ib i) <> Gt;
+  t_sep_lt_next : forall i, (S i < nb)%nat -> bcmp (key_at ib i) (key_at (B (S i)) 0) = Lt;
+}.
+
+Section OverTable.
+Variable decompress : N -> bytes -> res bytes.
+Variables (r : reader) (ib : ablock) (iridx : list nat) (nb : nat) (B : nat -> ablock) (Rr : nat -> list nat).
+Hypothesis T : table_ok decompress r ib iridx nb B Rr.
+
+Definition table_entries_of : list entry := Gents nb B.
+
+Theorem table_iter_all : forall fuel, (total nb B < fuel)%nat ->
+  exists it, reader_iter decompress r = Ok (Some it) /\ drain decompress fuel r it = Ok table_entries_of.
+Proof. destruct T. eapply reader_iter_all; eassumption. Qed.
+
+Theorem table_lookup : forall kind k0 k1 fuel, kind <> KIter -> (total nb B < fuel)%nat ->
+  match reader_iter_init decompress r kind k0 (match kind with KRange => k1 | _ => k0 end) with
+  | Ok (Some it) => drain decompress fuel r it = Ok (filter (fun e => lookup_pred kind k0 k1 (fst e)) table_entries_of)
+  | Ok None => filter (fun e => lookup_pred kind k0 k1 (fst e)) table_entries_of = []
+  | _ => False
+  end.
+Proof. destruct T. intros. eapply reader_lookup_refines; eassumption. Qed.
+
+(* every history of next / seek on an iterator obtained from the API *)
+Theorem table_history_iter : exists it, reader_iter decompress r = Ok (Some it) /\
+  forall ops, run_model decompress r it ops = Ok (run_spec nb B KIter (it_k it) (Some 0%nat) ops).
+Proof.
+  destruct T. destruct (reader_iter_refines decompress r ib iridx nb B Rr) as (it & Hit & Hok & Ha & Hk); try assumption.
+  exists it. split; [exact Hit|]. intros ops. rewrite <- Hk.
+  eapply history_refines; try eassumption. left. exact Ha.
+Qed.
+
+Theorem table_history_lookup : forall kind key bound,
+  match reader_iter_init decompress r kind key bound with
+  | Ok (Some it) => forall ops, run_model decompress r it ops = Ok (run_spec nb B kind bound (Some (gfirst nb B key)) ops)
+  | Ok None => gfirst nb B key = total nb B
+  | _ => False
+  end.
+Proof.
+  destruct T. intros kind key bound.
+  pose proof (reader_iter_init_refines decompress r ib iridx nb B Rr) as H.
+  specialize (H t_index0 t_index_wf0 t_count0 t_load0 t_block_wf0 t_offsets_distinct0 t_sep_ge_last0 t_sep_lt_next0 kind key bound).
+  destruct (reader_iter_init decompress r kind key bound) as [[it|]| | |]; try exact H.
+  destruct H as (Hok & Ha & Hk1 & Hk2). intros ops. rewrite <- Hk1, <- Hk2.
+  eapply history_refines; try eassumption. left. exact Ha.
+Qed.
+End OverTable.
